@@ -133,7 +133,7 @@ def step (st : St) (j : Json) : St × List String :=
       (st, ["tnew | " ++ obsTree (ibltOps st.tn) (fun g => toString (ibltDigest g)) st.ti j])
     else
       let st : St := { st with kind := "xor", tx := Tree.new xorOps ls, shelfX := [] }
-      (st, ["tnew | " ++ obsTree xorOps short st.tx j])
+      (st, ["tnew | " ++ obsTree xorOps full st.tx j])
   | op =>
     if st.kind == "iblt" then
       let o := ibltOps st.tn
@@ -151,7 +151,7 @@ def step (st : St) (j : Json) : St × List String :=
       | _ => (st, ["bad-op:" ++ op])
     else
       let o := xorOps
-      let fin (st : St) (tag : String) : St × List String := (st, [tag ++ " | " ++ obsTree xorOps short st.tx j])
+      let fin (st : St) (tag : String) : St × List String := (st, [tag ++ " | " ++ obsTree xorOps full st.tx j])
       match op with
       | "tins" => fin { st with tx := st.tx.insert o (parseRef j "ref") (jNat j "clock") } "tins"
       | "tdel" => fin { st with tx := st.tx.delete o (parseRef j "ref") (jNat j "clock") } "tdel"
